@@ -874,27 +874,28 @@ ssize Process::read(void* buffer, usize length, uint& streams)
 #endif
 #else
   fd_set fdr;
-  FD_ZERO(&fdr);
-  int maxFd = 0;
-  if(streams & stdoutStream && fdStdOutRead)
-  {
-    FD_SET(fdStdOutRead, &fdr);
-    maxFd = fdStdOutRead;
-  }
-  if(streams & stderrStream && fdStdErrRead)
-  {
-    FD_SET(fdStdErrRead, &fdr);
-    if(fdStdErrRead > maxFd)
-      maxFd = fdStdErrRead;
-  }
-  if(maxFd == 0)
-  {
-    errno = EINVAL;
-    return -1;
-  }
-  timeval tv = {1000, 0};
   for(;;)
   {
+    // select() overwrites the descriptor set and the timeout: set both up again for every call
+    FD_ZERO(&fdr);
+    int maxFd = 0;
+    if(streams & stdoutStream && fdStdOutRead)
+    {
+      FD_SET(fdStdOutRead, &fdr);
+      maxFd = fdStdOutRead;
+    }
+    if(streams & stderrStream && fdStdErrRead)
+    {
+      FD_SET(fdStdErrRead, &fdr);
+      if(fdStdErrRead > maxFd)
+        maxFd = fdStdErrRead;
+    }
+    if(maxFd == 0)
+    {
+      errno = EINVAL;
+      return -1;
+    }
+    timeval tv = {1000, 0};
     int i = select(maxFd + 1, &fdr, 0, 0, &tv);
     if(i == 0)
       continue;
